@@ -19,7 +19,7 @@ META = {
         "quick": {"evaluations": 2500, "distinct_nontrivial": 150, "tables": {"networks": 300, "feature/odd>=2": 150, "feature/conjugated-tensor": 80, "feature/multi-label-operand": 40, "route/split-einsum": 150, "feature/bra-ket-label-pairs": 300, "feature/shared-legs>=6": 100, "feature/tensor-of-dense-size>=2**22": 6}},
         "thorough": {"evaluations": 150000, "distinct_nontrivial": 8000, "tables": {"networks": 10000, "feature/odd>=2": 5000}},
     },
-    "wall": {"quick": 300, "thorough": 1700},
+    "wall": {"quick": 900, "thorough": 1700},
 }
 
 
